@@ -10,6 +10,7 @@ import (
 	"lunar/engine/utils/environment"
 	context_manager "lunar/toolkit-core/context-manager"
 	"lunar/toolkit-core/interfaces"
+	"lunar/toolkit-core/verifhook"
 	"strconv"
 	"strings"
 	"sync"
@@ -153,6 +154,7 @@ func (cs *concurrentStrategy) Dec(APIStream public_types.APIStreamI) error {
 		if err != nil {
 			return err
 		}
+		verifhook.Event("cq.rem", cs.quotaID, reqID, "dec", requestData.member)
 	}
 
 	if cs.parent != nil {
@@ -186,6 +188,7 @@ func (cs *concurrentStrategy) Inc(APIStream public_types.APIStreamI) error {
 	if !increased {
 		return nil
 	}
+	verifhook.Event("cq.add", cs.quotaID, reqID, memberKey)
 
 	if cs.parent != nil {
 		if err := cs.parent.GetQuota().Inc(APIStream); err != nil {
@@ -433,6 +436,7 @@ func (cs *concurrentStrategy) validateMemberIntegrity(member *parsedMember) bool
 		if err := cs.sharedContext.SRem(cs.concurrentSetKey, member.Key); err != nil {
 			log.Debug().Err(err).Msg("Failed to remove key from set")
 		}
+		verifhook.Event("cq.rem", cs.quotaID, member.ReqID, "gc", member.Key)
 
 		cs.mutex.Lock()
 		delete(cs.allowedReq, member.ReqID)
